@@ -74,6 +74,11 @@ func (w *World) prepareInputsOf(l *ipfslog.IPFSLog, set map[string]bool) *loadIn
 	}
 	in.manifest = c
 	in.json = l.ToJSONLog()
+	if hs := in.json.Heads; len(hs) > 1 && w.R.Choose("json-head-order", 2) == 0 {
+		// the JSON form is the caller's data: it may list the heads in any order (here: rotated)
+		k := 1 + w.R.Choose("json-rotate", len(hs)-1)
+		in.json.Heads = append(append([]cid.Cid(nil), hs[k:]...), hs[:k]...)
+	}
 	in.heads = l.Heads().Slice()
 	if len(in.heads) == 1 {
 		in.single = true
@@ -132,7 +137,11 @@ func (w *World) invokeLoader(ctx context.Context, in *loadInputs, sp loadSpec, r
 	case ldManifest:
 		l, err = ipfslog.NewFromMultihash(ctx, w.St, rcv.ID, in.manifest, o, &ipfslog.FetchOptions{Concurrency: sp.conc, Length: sp.length, Timeout: sp.timeout, ProgressChan: w.curProgress})
 	case ldJSON:
+		given := append([]cid.Cid(nil), in.json.Heads...)
 		l, err = ipfslog.NewFromJSON(ctx, w.St, rcv.ID, in.json, o, w.fetchOpts(sp.conc, sp.length, sp.timeout))
+		if !cidsEq(given, in.json.Heads) {
+			w.R.Violate(w.P.Prop+":caller-json-modified", "NewFromJSON rewrote the head list of the JSON form its caller passed: was %v now %v", given, in.json.Heads)
+		}
 	case ldEntries:
 		// the caller's slice may have spare capacity (built with make/append): the library must neither
 		// write into that capacity in a way that disturbs the result nor reorder what the caller passed
@@ -624,6 +633,12 @@ func RunC11(r *Run) {
 		}
 		w.St.Reqs = nil
 		w.St.ReqAfterCancel = 0
+		headsGiven := append([]cid.Cid(nil), headCids...)
+		defer func(given, used []cid.Cid) {
+			if !cidsEq(given, used) {
+				r.Violate("C11:caller-heads-modified", "the fetch rewrote the caller's list of heads: was %v now %v", given, used)
+			}
+		}(headsGiven, headCids)
 		d := &FetchDriver{R: r, St: w.St, Name: w.M.Name, HookBias: r.Choose("bias", 3), CancelRate: cancelRate}
 		ctx, cancel := context.WithCancel(w.ctx)
 		d.Cancel = cancel
